@@ -44,7 +44,7 @@ entry!(EXMean, sf::mean::exp::mean::Mean<Rat>, |f, i| vec![f.filter(i[0])], |g| 
 entry!(EXMv, sf::mean::exp::mean_variance::MeanVariance<Rat>, |f, i| { let o = f.filter(i[0]); vec![o.mean, o.variance] }, |g| vec![g.config_ref().inverse_width]);
 entry!(EMed3, sf::median::Median<Rat, 3>, |f, i| vec![f.filter(i[0])], |_g| vec![]);
 entry!(EMed4, sf::median::Median<Rat, 4>, |f, i| vec![f.filter(i[0])], |_g| vec![]);
-entry!(EXMed, sf::median::exp::Median<Rat>, |f, i| vec![f.filter(i[0])], |g| { let c = g.config_ref(); vec![c.pre.inverse_width, c.mid, c.post.inverse_width] });
+entry!(EXMed, sf::median::exp::Median<Rat>, |f, i| vec![f.filter(i[0])], |g| { let c = g.config(); let r = g.config_ref(); if r.pre.inverse_width != c.pre.inverse_width || r.mid != c.mid || r.post.inverse_width != c.post.inverse_width { vec![] } else { vec![c.pre.inverse_width, c.mid, c.post.inverse_width] } });
 entry!(EMax3, sf::bounds::max::Max<Rat, 3>, |f, i| vec![f.filter(i[0])], |_g| vec![]);
 entry!(EMin3, sf::bounds::min::Min<Rat, 3>, |f, i| vec![f.filter(i[0])], |_g| vec![]);
 entry!(EBounds3, sf::bounds::Bounds<Rat, 3>, |f, i| { let (a, b) = f.filter(i[0]); vec![a, b] }, |_g| vec![]);
@@ -147,14 +147,49 @@ fn hists(rng: &mut Rng, t: bool, arity: usize) -> Vec<(Vec<Rat>, Vec<Rat>)> {
     v
 }
 
+/// special C12 scenarios on concrete types, same case format as exec12
+fn special12(kind: &str, hist: &[Vec<Rat>], probe: &[Vec<Rat>], shift: usize) -> Option<(usize, Vec<Rat>, Vec<Vec<Rat>>, Vec<Vec<Rat>>, Vec<Vec<Rat>>, bool)> {
+    use sf::bounds::{max, min}; use circular_buffer::CircularBuffer;
+    macro_rules! outs { ($f:expr, $ins:expr) => { $ins.iter().map(|i| vec![$f.filter(i[0])]).collect::<Vec<Vec<Rat>>>() } }
+    Some(match kind {
+        // a Cache built AROUND an inner filter that has already seen samples, reset before its first own call
+        "cache_from_used_integrate" => { let mut inner = sf::integrate::Integrate::<Rat>::default(); let oh = outs!(inner, hist);
+            let mut c = sf::cache::Cache::<_, Rat>::from(inner).reset(); let or = outs!(c, probe);
+            let mut fr = sf::cache::Cache::<sf::integrate::Integrate<Rat>, Rat>::default(); (23, vec![], oh, or, outs!(fr, probe), true) }
+        "cache_from_used_median3" => { let mut inner = sf::median::Median::<Rat, 3>::default(); let oh = outs!(inner, hist);
+            let mut c = sf::cache::Cache::<_, Rat>::from(inner).reset(); let or = outs!(c, probe);
+            let mut fr = sf::cache::Cache::<sf::median::Median<Rat, 3>, Rat>::default(); (24, vec![u(3)], oh, or, outs!(fr, probe), true) }
+        // min / max whose sample counter sits `shift` ticks before usize::MAX when reset is called
+        "max3_clock" => { let mut f = max::Max::<Rat, 3>::default(); let oh = outs!(f, hist); let g = f.into_guts();
+            let d = (usize::MAX - shift) - g.time; let mut cb: CircularBuffer<3, (Rat, usize)> = CircularBuffer::new(); for (v, t) in g.taps.iter() { cb.push_back((*v, t + d)); }
+            let mut r = max::Max::from_guts(max::State { time: g.time + d, taps: cb }).reset(); let or = outs!(r, probe);
+            let mut fr = max::Max::<Rat, 3>::default(); (6, vec![u(3)], oh, or, outs!(fr, probe), true) }
+        "min3_clock" => { let mut f = min::Min::<Rat, 3>::default(); let oh = outs!(f, hist); let g = f.into_guts();
+            let d = (usize::MAX - shift) - g.time; let mut cb: CircularBuffer<3, (Rat, usize)> = CircularBuffer::new(); for (v, t) in g.taps.iter() { cb.push_back((*v, t + d)); }
+            let mut r = min::Min::from_guts(min::State { time: g.time + d, taps: cb }).reset(); let or = outs!(r, probe);
+            let mut fr = min::Min::<Rat, 3>::default(); (7, vec![u(3)], oh, or, outs!(fr, probe), true) }
+        _ => return None,
+    })
+}
+
 // ------------------------------------------------------------------ C12
 pub fn gen12(tier: &str, rng: &mut Rng) -> Vec<Spec> {
     let t = tier == "thorough"; let mut v = vec![];
+    for (h, p) in hists(rng, t, 1) { for (i, kind) in ["cache_from_used_integrate", "cache_from_used_median3", "max3_clock", "min3_clock"].iter().enumerate() {
+        if h.is_empty() { continue; }
+        v.push(Spec::new("special").with("entry", kind).with("shift", (h.len() + i) % 4).with("xs", join_rats(&h)).with("probe", join_rats(&p))); } }
     for (name, cfgs, arity) in catalogue() { for cfg in &cfgs { for (h, p) in hists(rng, t, arity) {
         v.push(Spec::new("reset").with("entry", name).with("cfg", join_rats(cfg)).with("xs", join_rats(&h)).with("probe", join_rats(&p))); } } }
     v
 }
 pub fn exec12(s: &Spec, stats: &mut Stats) -> Outcome {
+    if s.kind == "special" {
+        let (hist, probe) = (enc_in(&s.rats("xs"), 1), enc_in(&s.rats("probe"), 1)); stats.bump(format!("entry:{}", s.get("entry")));
+        return match catch(|| special12(s.get("entry"), &hist, &probe, s.usize("shift"))) {
+            Ok(Some((idx, mcfg, oh, or, of, same))) => Outcome::Case(format!("mk {}%nat {} {} {} {} {} {} {} false", idx, cqlist(&mcfg), cll(&hist), cll(&probe), cll(&oh), cll(&or), cll(&of), cbool(same))),
+            Ok(None) => Outcome::Skip("unknown-entry"),
+            Err(_) => { stats.panics += 1; Outcome::Case(format!("mk 23%nat [] {} {} [] [] [] false true", cll(&hist), cll(&probe))) } };
+    }
     let name = s.get("entry"); let cfg = s.rats("cfg");
     let arity = catalogue().iter().find(|e| e.0 == name).map(|e| e.2).unwrap_or(1);
     let (hist, probe) = (enc_in(&s.rats("xs"), arity), enc_in(&s.rats("probe"), arity));
@@ -166,7 +201,9 @@ pub fn exec12(s: &Spec, stats: &mut Stats) -> Outcome {
         let mut g = f.reset(); let c1 = g.cfg();
         let cached_after = g.cached();
         let or = run_on(&mut g, &probe)?; let of = run_on(&mut fresh, &probe)?;
-        Ok::<_, String>((oh, or, of, c0 == c1 && cached_after.map_or(true, |c| c.is_none())))
+        // config()/config_ref() must report the configuration the filter was built with, before and after reset
+        let reported_ok = cfg.is_empty() || c0 == cfg;
+        Ok::<_, String>((oh, or, of, c0 == c1 && reported_ok && cached_after.map_or(true, |c| c.is_none())))
     });
     match r {
         Ok(Ok((oh, or, of, same))) => Outcome::Case(format!("mk {}%nat {} {} {} {} {} {} {} false", idx, cqlist(&mcfg), cll(&hist), cll(&probe), cll(&oh), cll(&or), cll(&of), cbool(same))),
@@ -223,8 +260,9 @@ fn float_copy(name: &str, mode: &str, hist: &[f64], cont: &[f64]) -> Outcome {
         "kalman_f64" => drive64(sf::observe::kalman::Kalman::<f64>::with_config(sf::observe::kalman::Config { r: 0.5, q: 2.0, a: 1.0, b: 0.0, c: 1.0 }), mode, hist, cont),
         _ => drive64(sf::mean::mean_variance::MeanVariance::<f64, 3>::default().map_mean(), mode, hist, cont),
     });
-    let enc = |v: &[f64]| v.iter().map(|x| vec![f64_exact(*x).unwrap_or(Rat::int(i64::MAX / 8))]).collect::<Vec<_>>();
-    let ins: Vec<Vec<Rat>> = cont.iter().map(|_| vec![Rat::int(0)]).collect();
+    // long continuations: only the last 400 outputs of each are reported (both lists come from the implementation)
+    let enc = |v: &[f64]| v.iter().skip(v.len().saturating_sub(400)).map(|x| vec![f64_exact(*x).unwrap_or(Rat::int(i64::MAX / 8))]).collect::<Vec<_>>();
+    let ins: Vec<Vec<Rat>> = cont.iter().take(400).map(|_| vec![Rat::int(0)]).collect();
     match r { Ok((a, b)) => Outcome::Case(format!("mk 100%nat [] [] {} {} [] {} {} [] [] None false", cll(&ins), cll(&ins), cll(&enc(&a)), cll(&enc(&b)))),
               Err(_) => Outcome::Case(format!("mk 100%nat [] [] {} {} [] [] [] [] [] None true", cll(&ins), cll(&ins))) }
 }
@@ -259,6 +297,11 @@ pub fn gen20(tier: &str, rng: &mut Rng) -> Vec<Spec> {
             let cont: Vec<String> = (0..6).map(|_| format!("{}", rng.range(-2000, 2000))).collect();
             v.push(Spec::new("copyf").with("entry", name).with("mode", mode).with("scale", if k % 4 < 2 { 1 } else { 1000 }).with("xs", h.join(",")).with("ys", cont.join(",")));
         } } }
+    // float copies followed by more samples than a 16-bit counter can hold
+    for (name, mode) in [("mean5_f32", "guts"), ("mean3_f32", "clone"), ("mean4_f64", "guts")] {
+        let mut h: Vec<String> = (0..12).map(|k| format!("{}", 1234 + 7 * k)).collect(); h[0] = "1000000000".to_string();
+        let cont: Vec<String> = (0..70_000u32).map(|k| format!("{}", (k * 37 + k / 9) % 2999)).collect();
+        v.push(Spec::new("copyf").with("entry", name).with("mode", mode).with("scale", 1000).with("xs", h.join(",")).with("ys", cont.join(","))); }
     // source Cache over a finite source: every program of pulls (0) and cached() reads (1) up to length 6 (7)
     for items in [vec![], vec![3i64], vec![3, 1, 4]] { for l in 1..=(if t { 7 } else { 6 }) { for ops in crate::util::all_seqs(&[0i64, 1], l) {
         v.push(Spec::new("cache_source").with("xs", join(&items)).with("ops", join(&ops))); } } }
